@@ -8,6 +8,7 @@ From M Require RtBlock.
 From M Require Tie.
 From M Require ArrayRoundTrip.
 From M Require RtFloat.
+From M Require ArrayRoundTrip64.
 From M Require DecSpec.
 From M Require FmtModel.
 From M Require GFmt.
@@ -191,4 +192,16 @@ Theorem C07_rt_float_bits :
 Proof. exact (@RtFloat.rt_float_bits). Qed.
 End T_rt_float_bits.
 Definition C07_rt_float_bits := @T_rt_float_bits.C07_rt_float_bits.
+
+Module T_rt_uint_array64. Import ArrayRoundTrip64. Local Open Scope bool_scope. Local Open Scope Z_scope.
+Import LexModel LexBounds DecSpec MoreSpecs NumList SimpleSpecs ListWs ParserModel ParamList. Local Open Scope Z_scope.
+Local Open Scope Z_scope.
+Theorem C07_rt_uint_array64 :
+  forall vals n c m,
+  vals <> [] -> Forall (fun u => 0 < u < 2 ^ 64) vals ->
+  at_item c (map canon_item64 vals) 0 -> tail_ok64 c -> n <> O ->
+  exists c', param_array n (array_reader 16) c m [] = (c', false, firstn n vals).
+Proof. exact (@ArrayRoundTrip64.rt_uint_array64). Qed.
+End T_rt_uint_array64.
+Definition C07_rt_uint_array64 := @T_rt_uint_array64.C07_rt_uint_array64.
 
